@@ -2142,16 +2142,22 @@ func (db *DB) CommitJournal(ctx context.Context, mode JournalMode) (err error) {
 	}
 
 	// Remove all checksums after last page. The transaction can still fail
-	// below (e.g. the primary refuses a forwarded commit) while the pages are
-	// still in the file, so remember the checksums and put them back in that case.
+	// below (e.g. the primary refuses a forwarded commit, the journal cannot
+	// be invalidated) while the pages are still in the file and the database
+	// size is unchanged, so remember the checksums and put them back in that case.
 	removedChksums := make(map[uint32]ltx.Checksum)
-	ltxRenamed := false
+	sizeUpdated, ltxRenamed := false, false
 	defer func() {
-		if err != nil && !ltxRenamed {
+		if err != nil && !sizeUpdated {
 			db.chksums.mu.Lock()
 			defer db.chksums.mu.Unlock()
 			for pgno, chksum := range removedChksums {
 				db.setDatabasePageChecksum(pgno, chksum)
+			}
+
+			// The position does not move either, so the log must not run ahead of it.
+			if ltxRenamed {
+				_ = db.os.Remove("COMMITJOURNAL:LTX", ltxPath)
 			}
 		}
 	}()
@@ -2229,6 +2235,7 @@ func (db *DB) CommitJournal(ctx context.Context, mode JournalMode) (err error) {
 	}
 
 	// Update database flags.
+	sizeUpdated = true
 	db.pageN.Store(commit)
 	db.mode.Store(dbMode)
 
